@@ -23,6 +23,11 @@
 (*                                 whose creating transaction was rolled back                *)
 (*     FIX_LocalRollback = FALSE : AddContent does not rebuild the tree after a failed write *)
 (*     FIX_DeleteAfter   = FALSE : objectTree.Delete marks the tree deleted before the write *)
+(*     FIX_NotifyAfterCommit = FALSE : headstorage.UpdateEntry tells its observers (head sync) *)
+(*                                 the new heads inside the write transaction, before it     *)
+(*                                 commits; NOT repaired in the code (any-store has no       *)
+(*                                 commit hook): the registered configurations keep FALSE    *)
+(*                                 and leave ObserverSeesCommitted out (listed known finding)*)
 (*   and two seeded mutants (acceptance tests of the machinery):                            *)
 (*     DEV_HeadsOutsideTx = TRUE : heads entry written after the change transaction          *)
 (*     DEV_SpaceTwoTx     = TRUE : space creation split into two transactions                *)
@@ -33,6 +38,7 @@ CONSTANTS NT,          \* trees; their roots are the change ids 1..NT; tree 1 = 
           MaxAcl,      \* ACL records beyond the root
           MaxFaults,   \* injected errors + crashes in one behaviour
           FIX_NamedResult, FIX_AclWriteFirst, FIX_DeferredReset, FIX_LocalRollback, FIX_DeleteAfter,
+          FIX_NotifyAfterCommit,
           DEV_HeadsOutsideTx, DEV_SpaceTwoTx,
           GEN          \* TRUE: keep the history variable (behaviour generation); FALSE: model checking
 
@@ -153,7 +159,17 @@ DeleteProg(t) == <<Begin, Del(t), Commit>>
 
 (* ------------------------------------------------------------------ live objects *)
 ClosedTree == [st |-> "closed", hs |-> {}, root |-> 0, att |-> {}, mx |-> 0, def |-> "no"]
-ClosedMem  == [space |-> FALSE, acl |-> 0, tr |-> [t \in Trees |-> ClosedTree]]
+\* obs / obsAcl: the heads the head-storage observers (head sync) were told last
+ClosedMem  == [space |-> FALSE, acl |-> 0, tr |-> [t \in Trees |-> ClosedTree], obs |-> [t \in Trees |-> {}], obsAcl |-> 0]
+\* an observer that attaches to a stored space reads the stored heads first
+ObsFromDisk(m, d) == [m EXCEPT !.obs = [t \in Trees |-> IF d.heads[t].on THEN d.heads[t].hs ELSE {}], !.obsAcl = d.aclHead]
+\* headstorage.UpdateEntry -> observers, at the call (as the code does) or when the write transaction commits
+Notify(m, k, d2, committed) ==
+    IF ~m.space THEN m
+    ELSE IF FIX_NotifyAfterCommit
+           THEN IF committed THEN ObsFromDisk(m, d2) ELSE m
+           ELSE IF k.c = "upsh" THEN [m EXCEPT !.obs[k.a] = k.s]
+                ELSE IF k.c = "upsa" THEN [m EXCEPT !.obsAcl = k.a] ELSE m
 
 \* what BuildObjectTree / rebuildFromStorage(nil) yields from a durable state
 FromDisk(d, t) ==
@@ -173,7 +189,7 @@ Idle == op.kind = "none"
 DiskProj(d) == [space |-> d.space, schema |-> Cardinality(d.schema),
                 heads |-> [t \in Trees |-> d.heads[t]],
                 stored |-> {i \in Ids : d.ord[i] # 0}, acl |-> d.acl, aclHead |-> d.aclHead]
-MemProj(m) == [space |-> m.space, acl |-> m.acl,
+MemProj(m) == [space |-> m.space, acl |-> m.acl, obs |-> m.obs, obsAcl |-> m.obsAcl,
                tr |-> [t \in Trees |-> [st |-> m.tr[t].st, hs |-> m.tr[t].hs, root |-> m.tr[t].root, def |-> m.tr[t].def]]]
 CallStr(k) == IF IsTxCall(k) THEN (IF k.c = "sp" THEN "sp" ELSE k.c)
               ELSE IF k.c = "mk" THEN SchemaNames[k.a]
@@ -208,7 +224,7 @@ Init ==
 (* ------------------------------------------------------------------ finishing an operation *)
 \* in-memory effects that happen only after the write succeeded
 MemOnOk(o, m) ==
-    CASE o.kind = "space"  -> [m EXCEPT !.space = TRUE, !.acl = 1]
+    CASE o.kind = "space"  -> [m EXCEPT !.space = TRUE, !.acl = 1, !.obs[1] = {1}, !.obsAcl = 1]
       [] o.kind = "create" -> [m EXCEPT !.tr[o.t] = [st |-> "open", hs |-> {o.t}, root |-> o.t, att |-> {o.t}, mx |-> 1, def |-> "no"]]
       [] o.kind \in {"local", "remote"} -> [m EXCEPT !.tr[o.t].def = "no"]
       [] o.kind = "acl"    -> [m EXCEPT !.acl = o.i]
@@ -380,26 +396,25 @@ OpenDeferred ==
     /\ UNCHANGED <<U, disk, tx, op, pre, post, last, pend, faults, prov>>
 
 \* another replica creates a change (the world grows; nothing happens on the replica under test)
-AuthorAdd ==
+AuthorAddAt(t, snap, prev) ==
     /\ Quiet /\ Fresh # {}
-    /\ \E t \in Trees, snap \in BOOLEAN :
-       \E prev \in SUBSET OfTree(t) :
-         /\ prev # {} /\ Cardinality(prev) <= 2 /\ Maxl(prev) = prev
-         /\ LET base == CSnap(prev)
-                c == CHOOSE i \in Fresh : \A j \in Fresh : i <= j
-                acl == Max({U[p].acl : p \in prev})          \* a change never names an older ACL head than its parents
-            IN /\ base # 0
-               /\ Existing(t, prev, base, snap, FALSE, acl) = {}
-               /\ U' = [U EXCEPT ![c] = [on |-> TRUE, tree |-> t, prev |-> prev, base |-> base, snap |-> snap, loc |-> FALSE,
-                                         acl |-> acl]]
-               /\ hist' = Log([HistEntry("author", [NoOp EXCEPT !.t = t, !.snap = snap, !.set = prev, !.i = c], "ok", disk, mem)
-                                          EXCEPT !.new = <<c>>])
+    /\ prev \subseteq OfTree(t) /\ prev # {} /\ Cardinality(prev) <= 2 /\ Maxl(prev) = prev
+    /\ LET base == CSnap(prev)
+           c == CHOOSE i \in Fresh : \A j \in Fresh : i <= j
+           acl == Max({U[p].acl : p \in prev})          \* a change never names an older ACL head than its parents
+       IN /\ base # 0
+          /\ Existing(t, prev, base, snap, FALSE, acl) = {}
+          /\ U' = [U EXCEPT ![c] = [on |-> TRUE, tree |-> t, prev |-> prev, base |-> base, snap |-> snap, loc |-> FALSE,
+                                    acl |-> acl]]
+          /\ hist' = Log([HistEntry("author", [NoOp EXCEPT !.t = t, !.snap = snap, !.set = prev, !.i = c], "ok", disk, mem)
+                             EXCEPT !.new = <<c>>])
     /\ UNCHANGED <<disk, tx, mem, op, pre, post, last, pend, faults, prov>>
+AuthorAdd == \E t \in Trees, snap \in BOOLEAN : \E prev \in SUBSET OfTree(t) : AuthorAddAt(t, snap, prev)
 
 \* after a crash: spacestorage.New + BuildAclListWithIdentity on what is on disk
 Reopen ==
     /\ Idle /\ last.res = "crash" /\ ~mem.space /\ disk.space
-    /\ mem' = [ClosedMem EXCEPT !.space = TRUE, !.acl = disk.aclHead]
+    /\ mem' = ObsFromDisk([ClosedMem EXCEPT !.space = TRUE, !.acl = disk.aclHead], disk)
     /\ last' = [last EXCEPT !.res = "reopened"]
     /\ Silent("reopen", 0, disk, mem')
     /\ UNCHANGED <<U, disk, tx, op, pre, post, pend, faults, prov>>
@@ -415,10 +430,11 @@ CallOk(k) ==
                ELSE IF k.c \in {"commit", "release"}
                       THEN IF Len(tx) = 1 THEN <<>> ELSE Append(Pop(Pop(tx)), tx[Len(tx)])
                ELSE IF tx = <<>> THEN tx ELSE [tx EXCEPT ![Len(tx)] = Eff(@, k)]
+        m2 == Notify(mem, k, d2, k.c \in {"commit", "release"} /\ Len(tx) = 1)
     IN /\ disk' = d2 /\ tx' = tx2
        /\ IF op.pc = Len(op.prog)
-            THEN Finish(op, "ok", d2, MemOnOk(op, mem))
-            ELSE op' = [op EXCEPT !.pc = @ + 1] /\ UNCHANGED <<mem, last, pend, prov, hist>>
+            THEN Finish(op, "ok", d2, MemOnOk(op, m2))
+            ELSE op' = [op EXCEPT !.pc = @ + 1] /\ mem' = m2 /\ UNCHANGED <<last, pend, prov, hist>>
 
 \* the call returns an error; injected = it uses up a fault, otherwise the call fails by itself
 CallErr(k, injected) ==
@@ -512,6 +528,11 @@ LiveAgreesWithDisk ==
     Idle => /\ (mem.acl > 0 => mem.acl = disk.aclHead)
             /\ \A t \in Trees : TreeAgrees(t)
             /\ (mem.space => disk.space)
+
+\* head sync only ever advertises committed heads (known finding: violated by the code as it is)
+ObserverSeesCommitted ==
+    (Idle /\ mem.space) => /\ \A t \in Trees : disk.heads[t].on => mem.obs[t] = disk.heads[t].hs
+                            /\ mem.obsAcl = disk.aclHead
 
 \* the same input is accepted again after a failed write
 RetrySucceeds == (Idle /\ last.retry /\ last.res # "crash" /\ last.res # "reopened") => last.res \in {"ok", "injected"}
